@@ -15,6 +15,9 @@ CLASSES = {
     'Fragments': dict(module='fragments', bases=[], attrs={
         'fragments': 'dict:int:bytes', 'begin_of_fragments': 'list', 'current_offset': 'int', 'fill': 'bytes',
         'ghost_idx': 'dict:int:int'}),     # ghost: position -> an index of it in begin_of_fragments
+    # regular-expression pre-filter (C18): one regexp piece per stored chunk
+    'FragmentsOfRegexps': dict(module='fragments', bases=['Fragments'], attrs={'regexp_by_position': 'dict:int:bytes'}),
+    'Any': dict(module='pattern_matching', bases=[], attrs={'regexp': 'dyn'}),
     'Field': dict(module='field', bases=[], attrs=FIELD_ATTRS),
     'Move': dict(module='structural_fields', bases=['Field'], attrs={}),
     'Int': dict(module='field', bases=['Field'], attrs={
@@ -58,7 +61,8 @@ CLASSES = {
     'AutoLength': dict(module='descriptor', bases=['Auto'], attrs={'length_of': 'str'}),
 }
 
-DISJOINT = [('Module', 'PktClass'), ('Module', 'CodeGenerator'), ('PktClass', 'CodeGenerator'), ('Module', 'Packet'), ('Module', 'Field'),
+DISJOINT = [('Any', 'Field'), ('Any', 'Packet'), ('Any', 'Fragments'),
+            ('Module', 'PktClass'), ('Module', 'CodeGenerator'), ('PktClass', 'CodeGenerator'), ('Module', 'Packet'), ('Module', 'Field'),
             ('Field', 'Packet'), ('Field', 'Fragments'), ('Packet', 'Fragments'),
             ('Int', 'Data'), ('Int', 'Bits'), ('Data', 'Bits'), ('Field', 'PacketError'),
             ('Packet', 'PacketError'), ('Field', 'UnaryExpr'), ('Field', 'BinaryExpr'), ('Field', 'NaryExpr')]
